@@ -77,6 +77,22 @@ def norm_path(pk: int, c: int, shape: int) -> bool:
     return V(_same(u))
 
 
+def norm_path2(pk: int, c: int, d: int, shape: int) -> bool:
+    """
+    pre: 0 <= pk < 7 and 0 <= shape < 3
+    pre: is_pchar(c) and is_pchar(d)
+    post: _
+    """
+    c, d = chr(c), chr(d)
+    tail = ["/" + c + d, "/a;" + c + "/" + d, "/" + c + "?" + d + "=" + c][shape]
+    u = "gemini://h" + PORTS[pk] + tail
+    try:
+        parse_url(u)
+    except ValueError:
+        return True
+    return V(_same(u))
+
+
 def norm_query(a: int, b: int, shape: int) -> bool:
     """
     pre: 0 <= shape < 4
@@ -148,6 +164,8 @@ OBLIGATIONS = [
        symbolic="path/query character (any pchar code point incl. ';' ':' '@' and sub-delims)",
        enum="3 port forms x 5 path/query shapes incl. ;params and pct-encoding",
        functions=["parse_url", "normalize_url", "GeminiRequest.from_line"]),
+    Ob("norm_path2", norm_path2, quick=600, thorough=1500, tiers=("thorough",),
+       symbolic="2 path/query characters (any pchar code point), 7 port forms, 3 shapes", functions=["parse_url", "normalize_url", "GeminiRequest.from_line"]),
     Ob("norm_query", norm_query, quick=180, thorough=900,
        symbolic="2 query characters (pchar | / | ?)", enum="4 shapes",
        functions=["parse_url", "normalize_url", "GeminiRequest.from_line"]),
